@@ -350,6 +350,32 @@ def short_span(s):
     return "%s:%d" % (f, l)
 
 
+def _records(path):
+    """parsed records of a fact file; a marshal image next to it avoids re-parsing 23 MB of JSON"""
+    import gc
+    import marshal
+    gc.disable()  # millions of small containers: the cyclic collector only slows the load down
+    mp = path + ".marshal"
+    try:
+        if os.path.getmtime(mp) >= os.path.getmtime(path):
+            with open(mp, "rb") as fh:
+                return marshal.load(fh)
+    except (OSError, EOFError, ValueError):
+        pass
+    recs = []
+    with open(path) as fh:
+        for line in fh:
+            recs.append(json.loads(line))
+    try:
+        tmp = mp + ".%d" % os.getpid()
+        with open(tmp, "wb") as fh:
+            marshal.dump(recs, fh)
+        os.replace(tmp, mp)
+    except OSError:
+        pass
+    return recs
+
+
 class Facts:
     def __init__(self, path):
         self.path = path
@@ -361,9 +387,8 @@ class Facts:
         self.types = []
         self.meta = None
         dup = 0
-        with open(path) as fh:
-            for line in fh:
-                r = json.loads(line)
+        for r in _records(path):
+            if True:
                 k = r["k"]
                 if k == "fn":
                     f = Fn(r)
